@@ -47,6 +47,25 @@ def patch_spec(case):
     return S.patch_spec(extra_modules=["tdgl.solver.options"])
 
 
+def concretise(case, o, vals):
+    """a counter-example to 'the adaptive step goes to dt_max' lives where the recorded change of |psi|^2 is
+    *exactly* zero, as it is on real meshes: replay it on the geometric weights of the real device mesh, without
+    the tie-breaking perturbation (generic weights leave a change of ~1e-16, which hides the exact-zero case)"""
+    if "adaptive step goes to dt_max" not in o.name:
+        return None
+    mesh = meshes.get_device(case.dev, case.seed).mesh
+    em = mesh.edge_mesh
+    out = dict(vals)
+    for i, v in enumerate(np.asarray(mesh.areas, dtype=float)):
+        out[f"a{i}"] = float(v)
+    for i, (e, d) in enumerate(zip(np.asarray(em.edge_lengths, dtype=float), np.asarray(em.dual_edge_lengths, dtype=float))):
+        out[f"e{i}"], out[f"s{i}"] = float(e), float(d)
+    out.update(u=5.79, dt_init=2.0**-10, dt_max=2.0**-4, _exact=True)
+    if "gamma" in out or case.gamma == "sym":
+        out["gamma"] = 10.0
+    return out
+
+
 def cases(tier, seed):
     out = []
     devs = [("bar0", 0.0), ("bar2", None), ("holed", 0.0)]
